@@ -94,24 +94,26 @@ func c01DepBeforeCmd(c *Check, a *Anchors) {
 			"facts at the event include nil:deps (dependency runner returned nil on every path here)",
 			fmt.Sprintf("a command event is reachable without the dependency runner having returned nil on every path; must-facts here: %s", st))
 	}
-	inspectBody(body.Body, func(nd ast.Node) bool {
-		switch x := nd.(type) {
-		case *ast.DeferStmt:
-			if a.IsCmdEvent(callee(body.Info(), x.Call)) {
-				check(x, callee(body.Info(), x.Call), "defer")
+	for _, part := range a.bodyParts() {
+		inspectBody(part.Body, func(nd ast.Node) bool {
+			switch x := nd.(type) {
+			case *ast.DeferStmt:
+				if a.IsCmdEvent(callee(body.Info(), x.Call)) {
+					check(x, callee(body.Info(), x.Call), "defer")
+				}
+				return false
+			case *ast.GoStmt:
+				if a.IsCmdEvent(callee(body.Info(), x.Call)) {
+					check(x, callee(body.Info(), x.Call), "go")
+				}
+			case *ast.CallExpr:
+				if a.IsCmdEvent(callee(body.Info(), x)) {
+					check(x, callee(body.Info(), x), "call")
+				}
 			}
-			return false
-		case *ast.GoStmt:
-			if a.IsCmdEvent(callee(body.Info(), x.Call)) {
-				check(x, callee(body.Info(), x.Call), "go")
-			}
-		case *ast.CallExpr:
-			if a.IsCmdEvent(callee(body.Info(), x)) {
-				check(x, callee(body.Info(), x), "call")
-			}
-		}
-		return true
-	})
+			return true
+		})
+	}
 	c.Sites += n
 	c.Floor("dep-before-cmd", n, 2)
 	// the dependency runner must actually be invoked by the body
